@@ -18,6 +18,7 @@ F_CRASH = "C13-drop-lost-on-crash"
 F_NEWIDX = "C13-drop-ignored-by-new-index"
 F_WAL = "C13-dropped-rows-replayed-from-wal"
 F_SKIP = "C13-purge-forgets-ids-of-skipped-parts"
+F_RPLIST = "C13-marked-policy-still-listed"
 LISTING = {"show-series", "show-series-where", "show-tag-values", "tv-where-eq", "tv-where-eq-y", "tv-where-neq", "tv-where-re",
            "tv-where-nre", "tv-where-host-neq", "tv-keyre-where", "tv-in-where", "tk-where-host", "tk-where-region",
            "ss-where-neq", "ss-where-re", "ss-where-nre", "ss-where-region"}
@@ -153,6 +154,8 @@ def case_coq(h, later):
         for o in step["obs"]:
             if skip_mst is not None and o["mst"] == skip_mst:
                 continue
+            if step["phase"] == "right-after-drop" and o["shape"] == "show-series" and not o["ok"] and h["drop"]["kind"] != "series":
+                continue          # a listing asked while the object is only marked: judged by the oracle (the model drops at the mark)
             lq = listing_query(o["shape"], it)
             if lq is not None:
                 kind, e = lq
@@ -176,7 +179,12 @@ def case_coq(h, later):
             ops.append("KRead %d %s %d %s %s" % (path, "true" if primed else "false", it.str(o["mst"]),
                                                  "None" if e is None else "(Some %s)" % e, coq_list(obs)))
 
-    steps = {s["phase"]: s for s in h["steps"]}
+    steps = {}
+    for st in h["steps"]:                 # (a phase may be recorded in several steps: their observations are put together)
+        if st["phase"] in steps:
+            steps[st["phase"]] = {"phase": st["phase"], "obs": steps[st["phase"]]["obs"] + st["obs"]}
+        else:
+            steps[st["phase"]] = st
     phantom = it.str("\x00some later measurement of the same index")
     if later:
         ops.append("KWrite (mkS %d [])" % phantom)
@@ -311,7 +319,10 @@ def tree_case(h):
 
     steps = {}
     for st in h["steps"]:
-        steps.setdefault(st["phase"], st)
+        if st["phase"] in steps:
+            steps[st["phase"]] = {"phase": st["phase"], "obs": steps[st["phase"]]["obs"] + st["obs"]}
+        else:
+            steps[st["phase"]] = st
     writes(h["w1"])
     ops.append("TOp (TFlush %d %d)" % (d, rp))
     writes(h["w2"])
@@ -715,7 +726,7 @@ def main(ck):
         open(os.path.join(ck.verif, "work", "c13dev", "rendered.txt"), "w").write("\n".join(rendered))
         open(os.path.join(ck.verif, "work", "c13dev", "hs.json"), "w").write(json.dumps(hs))
     # ---- verdicts
-    stale = {F_PATHS, F_ALT, F_CACHE, F_KEYS, F_CROSS, F_CRASH, F_NEWIDX, F_WAL}
+    stale = {F_PATHS, F_ALT, F_CACHE, F_KEYS, F_CROSS, F_CRASH, F_NEWIDX, F_WAL, F_RPLIST}
     what = {F_PATHS: "after DROP SERIES, reads that start from all series of the measurement (plain select, field filter, group by, "
                      "aggregates, != / ='' / !~ filters) still return the dropped series when another measurement sorts after it in the index",
             F_ALT: "after DROP SERIES, a regex tag filter translated into alternatives (host =~ /a|b/) still returns the dropped series",
@@ -726,6 +737,8 @@ def main(ck):
                       "deleted-series table existed: every read shape still returns it",
             F_WAL: "rows written before an acknowledged, durable DROP SERIES and still in the WAL at a kill -9 come back after the restart "
                    "(the WAL replay gives the dropped series a fresh id)",
+            F_RPLIST: "right after an acknowledged DROP RETENTION POLICY (the policy is marked, the stores have not deleted yet) SHOW SERIES "
+                      "still lists the policy's series while a select is already refused",
             F_CROSS: "a listing in a database without any DROP SERIES misses series after DROP SERIES in ANOTHER database (stale deleted set "
                      "in the pooled index search; series ids of databases created close in time collide)"}
     nontriv = set()
@@ -762,7 +775,12 @@ def main(ck):
                 fids = None
                 after = st["phase"] not in ("before", "right-before-drop")
                 lab = labels_of(o)
-                if st["phase"] == "after-late-drop":
+                if st["phase"] == "right-after-drop" and o["shape"] == "show-series" and d["kind"] == "rp" and not o.get("err"):
+                    # asked within milliseconds of the acknowledgement: the policy is marked, the stores have not deleted yet
+                    mine = {",".join([sk["mst"]] + ["%s=%s" % kv for kv in sorted(sk["tags"].items())]) for sk in h["series"] if sk["mst"] == o["mst"]}
+                    if not o["want"] and o["rows"] and set(o["rows"]) <= mine:
+                        fid = F_RPLIST
+                elif st["phase"] == "after-late-drop":
                     # the series named by drop3 lives only in the index created after the restart; no restart since
                     if lab == {"d3"} and h.get("drop3") and o["mst"] == h["drop3"]["mst"] and corr_ok:
                         fid = F_NEWIDX
